@@ -24,7 +24,8 @@ LEVEL = "exploration"
 RULE = ("structures (corpus segments / balls with threaded mutations, ligands, ions, clashing side chains; the corpus "
         "files themselves) x one of the 24 proper grid rotations (all 24 per structure in the thorough tier) x an "
         "integer milli-A translation (0.001 A steps, multiples of the 2.51 A cell size, moves into negative "
-        "coordinates, field-limit extremes). Non-trivial: the motion is not the identity and the structure has >= 1 "
+        "coordinates, field-limit extremes, anywhere in the coordinate field, straddling planes whose cell index is a "
+        "power of two up to 5140 A). Non-trivial: the motion is not the identity and the structure has >= 1 "
         "group with non-zero desolvation (layer 1) / >= 1 group with a determinant (layers 2, 3); distinct by hash "
         "of (input, motion, layer).")
 ASSUMPTIONS = [
@@ -52,7 +53,8 @@ def motion_strategy(bbox):
         mx = [max(a, b) for a, b in zip(lo, hi)]
         trans = []
         kind = draw(st.sampled_from(["zero", "tiny", "tiny", "cell", "cell", "negative", "negative", "any", "any",
-                                     "any", "extreme", "extreme"]))
+                                     "any", "extreme", "extreme", "field", "field", "pow2-cell-plane",
+                                     "pow2-cell-plane"]))
         for i in range(3):
             tmin, tmax = pdbio.COORD_MIN + 2000 - mn[i], pdbio.COORD_MAX - 2000 - mx[i]   # room for hydrogens
             if kind == "zero":
@@ -63,6 +65,14 @@ def motion_strategy(bbox):
                 t = CELL * draw(st.integers(-40, 40)) + draw(st.sampled_from([0, 0, 1, -1]))
             elif kind == "negative":
                 t = -mx[i] - draw(st.integers(0, 300000))
+            elif kind == "field":
+                # anywhere the coordinate field allows
+                t = draw(st.integers(tmin, tmax))
+            elif kind == "pow2-cell-plane":
+                # the structure straddles a plane whose cell index is a power of two (cell edge 2.51 A): index
+                # arithmetic, packing or hashing of the cell list changes regime there
+                plane = CELL * 2 ** draw(st.integers(3, 11)) * draw(st.sampled_from([1, 1, -1]))
+                t = plane - draw(st.integers(mn[i], mx[i]))
             elif kind == "extreme":
                 t = draw(st.sampled_from([tmin, tmax, tmin + 7, tmax - 13]))
             else:
